@@ -62,9 +62,13 @@ type Buffer struct {
 
 // Reader is wrapper of bytes.Reader
 type Reader struct {
-	ref []byte
-	buf *bytes.Reader
+	ref   []byte
+	buf   *bytes.Reader
+	depth int // nesting depth of the container being skipped
 }
+
+// maxNestDepth is the deepest nesting of struct/list/map fields that the skip functions follow.
+const maxNestDepth = 10000
 
 //go:nosplit
 func bWriteU8(w *bytes.Buffer, data uint8) error {
@@ -493,23 +497,20 @@ func (b *Reader) skipField(ty byte) error {
 			return err
 		}
 		b.Skip(int(l))
-	case MAP:
-		err := b.skipFieldMap()
-		if err != nil {
-			return err
+	case MAP, LIST, StructBegin:
+		// containers nest, and skipping them recurses: bound the depth, a packet made of nothing but
+		// StructBegin heads would otherwise overflow the stack and end the process.
+		if b.depth >= maxNestDepth {
+			return fmt.Errorf("nesting depth exceeds %d", maxNestDepth)
 		}
-	case LIST:
-		err := b.skipFieldList()
+		b.depth++
+		err := b.skipContainer(ty)
+		b.depth--
 		if err != nil {
 			return err
 		}
 	case SimpleList:
 		err := b.skipFieldSimpleList()
-		if err != nil {
-			return err
-		}
-	case StructBegin:
-		err := b.SkipToStructEnd()
 		if err != nil {
 			return err
 		}
@@ -519,6 +520,17 @@ func (b *Reader) skipField(ty byte) error {
 		return fmt.Errorf("invalid type")
 	}
 	return nil
+}
+
+func (b *Reader) skipContainer(ty byte) error {
+	switch ty {
+	case MAP:
+		return b.skipFieldMap()
+	case LIST:
+		return b.skipFieldList()
+	default:
+		return b.SkipToStructEnd()
+	}
 }
 
 // SkipToStructEnd for skip to the StructEnd tag.
